@@ -549,6 +549,11 @@ func runScripted(c core.Case) core.Result {
 	eng.H.SetProfile(c.Str("delay", "none"), c.Seed)
 	defer eng.H.SetProfile("none", 0)
 	before := eng.H.Snapshot()
+	if tb := int(c.Int("tsbase", 0)); tb > 0 {
+		// a store that has already seen very many commits
+		eng.PlantTimestamp(s.dir, s.cfg, eng.TsBases[(tb-1)%len(eng.TsBases)])
+		s.stat["scripts_on_a_store_with_a_high_timestamp"]++
+	}
 	if p := eng.Safely(func() { s.db = eng.Open(s.dir, s.cfg) }); p != "" {
 		res.Violate(c.Str("prop", "C05"), "open-panic", "%s", p)
 		return res
